@@ -368,7 +368,7 @@ def discharge(ctx, obligations, timeout, order, workers=16):
         if os.environ.get("PYVC_DUMP"):
             os.makedirs(os.environ["PYVC_DUMP"], exist_ok=True)
             import re as _re
-            open(os.path.join(os.environ["PYVC_DUMP"], _re.sub(r"[^A-Za-z0-9_.-]+", "_", ob.label)[:90] + "-" + hashlib.sha1(ob.label.encode()).hexdigest()[:6] + ".smt2"), "w").write(text)
+            open(os.path.join(os.environ["PYVC_DUMP"], _re.sub(r"[^A-Za-z0-9_.-]+", "_", ob.label)[:90] + "-" + hashlib.sha1((ob.label + text).encode()).hexdigest()[:6] + ".smt2"), "w").write(text)
             open(os.path.join(os.environ["PYVC_DUMP"], "INDEX.txt"), "a").write(hashlib.sha1(ob.label.encode()).hexdigest()[:6] + " " + ob.label + "\n")
         r = smt.solve(text, timeout, order=order)
         return ob, r
@@ -447,7 +447,7 @@ def prove_item(kind, name, tier, seed, known=()):
         if os.environ.get("PYVC_DUMP"):
             os.makedirs(os.environ["PYVC_DUMP"], exist_ok=True)
             import re as _re
-            open(os.path.join(os.environ["PYVC_DUMP"], _re.sub(r"[^A-Za-z0-9_.-]+", "_", ob.label)[:90] + "-" + hashlib.sha1(ob.label.encode()).hexdigest()[:6] + ".smt2"), "w").write(text)
+            open(os.path.join(os.environ["PYVC_DUMP"], _re.sub(r"[^A-Za-z0-9_.-]+", "_", ob.label)[:90] + "-" + hashlib.sha1((ob.label + text).encode()).hexdigest()[:6] + ".smt2"), "w").write(text)
             open(os.path.join(os.environ["PYVC_DUMP"], "INDEX.txt"), "a").write(hashlib.sha1(ob.label.encode()).hexdigest()[:6] + " " + ob.label + "\n")
         if ob.kind == "canary":
             return ob, smt.solve(text, 2, order=("z3-new",))
